@@ -41,7 +41,7 @@ type Ctx struct {
 	Prog  *ssa.Program
 	SSA   map[string]*ssa.Package
 	CG    *callgraph.Graph
-	Root  *ssa.Package // gohlslib
+	Root  *ssa.Package    // gohlslib
 	Funcs []*ssa.Function // every function (incl. anonymous) declared in the six packages
 
 	LoadSeconds float64
